@@ -185,6 +185,40 @@ def run_unit(unit, twin=None, seed=None, rlimit=None, outdir=None, multiple_erro
             pass
         if vr.get("encountered-vir-error"):
             undec.append({"message": "VIR error", "line": 0, "text": "", "rendered": p.stderr[-2000:]})
+    # a resource-limit hit in one function while ANOTHER function of the same run failed definitively is
+    # often an artefact (the solver process is in a degraded state after an error): re-run such functions alone
+    if undec and twin is None and not extra:
+        keep = []
+        for u in undec:
+            m = re.search(r"\bfn\s+(\w+)", u.get("text", ""))
+            if re.search(r"[Rr]esource limit|rlimit", u["message"]) and m:
+                fn = m.group(1)
+                cmd2 = [VERUS, os.path.basename(path), "--error-format=json", "--multiple-errors", "10",
+                        "--verify-root", "--verify-function", fn] + (["--rlimit", str(rlimit)] if rlimit else [])
+                try:
+                    p2 = subprocess.run(cmd2, cwd=os.path.dirname(path), capture_output=True, text=True, timeout=timeout)
+                except subprocess.TimeoutExpired:
+                    keep.append(u)
+                    continue
+                again_undec, again_fail = [], []
+                for ln in p2.stderr.split("\n"):
+                    if ln.strip().startswith("{"):
+                        try:
+                            c = classify(json.loads(ln), lines, meta)
+                        except Exception:
+                            c = None
+                        if c:
+                            (again_undec if c["undecided"] else again_fail).append(c)
+                if again_undec:
+                    keep.append(u)
+                else:
+                    res.setdefault("isolated_reruns", []).append({"function": fn, "failures": len(again_fail)})
+                    for c in again_fail:
+                        if not any(c["obligation"] == f["obligation"] for f in failures):
+                            failures.append(c)
+            else:
+                keep.append(u)
+        undec = keep
     if undec:
         res["status"] = "undecided"
         u = undec[0]
